@@ -100,3 +100,8 @@ def run(tier):
         "exhaustive": False,
     }
     return out.finish()
+
+
+def replay_file(path):
+    from harness import replayfile
+    return replayfile.replay_term(path, "harness.modes:c02", "C02")
